@@ -1,9 +1,11 @@
 package main
 
 import (
+	"encoding/binary"
 	"encoding/json"
 	"flag"
 	"fmt"
+	"hash/fnv"
 	"image"
 	"image/color"
 	"image/draw"
@@ -134,6 +136,41 @@ var FirstUseEntries = []string{"d-from16", "d-enc-nrgba64", "d-enc-rgba64", "d-e
 
 func b32(f float32) int        { return int(math.Float32bits(f)) }
 func c64(c color.RGBA64) []int { return []int{int(c.R), int(c.G), int(c.B), int(c.A)} }
+
+func init() { commands["tablehash"] = tablehashCmd }
+
+// tablehashCmd prints digests of the whole 16-bit encode and decode tables of a space, as this
+// process sees them after the history given by -pre (what it did before the tables were built).
+func tablehashCmd(args []string) error {
+	fs := flag.NewFlagSet("tablehash", flag.ExitOnError)
+	spName := fs.String("space", "srgb", "")
+	pre := fs.String("pre", "none", "none | decode (the decode table is complete before the first encode) | encode | images")
+	fs.Parse(args)
+	sp := fuSpaces[*spName]
+	switch *pre {
+	case "decode":
+		sp.from16(1234)
+		sp.linCol(color.NRGBA64{R: 5, G: 6, B: 7, A: 65535})
+	case "encode":
+		sp.to16(0.5)
+		sp.encCol(color.RGBA64{R: 5, G: 6, B: 7, A: 65535})
+	case "images":
+		m := image.NewRGBA64(image.Rect(0, 0, 3, 3))
+		sp.encImg(m, m, 2)
+		sp.linImg(m, m, 2)
+	}
+	he, hd := fnv.New64a(), fnv.New64a()
+	var b [4]byte
+	for i := 0; i < 65536; i++ {
+		v := sp.to16(float32(i) / 65535)
+		he.Write([]byte{byte(v >> 8), byte(v)})
+		binary.BigEndian.PutUint32(b[:], math.Float32bits(sp.from16(uint16(i))))
+		hd.Write(b[:])
+	}
+	js, _ := json.Marshal(map[string]interface{}{"space": *spName, "pre": *pre, "enc": fmt.Sprintf("%016x", he.Sum64()), "dec": fmt.Sprintf("%016x", hd.Sum64())})
+	os.Stdout.Write(append(js, '\n'))
+	return nil
+}
 
 func firstuseCmd(args []string) error {
 	fs := flag.NewFlagSet("firstuse", flag.ExitOnError)
